@@ -3,6 +3,9 @@ SPECIFICATION Spec
 CONSTANTS
   Families = {"repo"}
   GrowDepth = 0
-  Stride = 5
+  Stride = 7
+  MutStride = 1
+  DocEols = {"lf"}
+  DocBefores = {"none"}
 INVARIANTS WellFormed Emit
 CHECK_DEADLOCK FALSE
